@@ -200,6 +200,15 @@ Ltac crush_step :=
   | H : context [match ?x with _ => _ end] |- _ => destruct x eqn:?
   end.
 
+(* case analysis on the discriminee at the HEAD of the hypothesis only (no spurious splits on guards of other branches) *)
+Ltac crush_head :=
+  repeat (cbv zeta in *; match goal with
+  | H : Some _ = Some _ |- _ => inversion H; subst; clear H
+  | H : None = Some _ |- _ => discriminate H
+  | H : (if ?b then _ else _) = Some _ |- _ => destruct b eqn:?
+  | H : match ?x with _ => _ end = Some _ |- _ => destruct x eqn:?
+  end).
+
 Ltac use_eqs :=
   repeat match goal with
   | H : mainpc ?s = _ |- _ => rewrite H in *; clear H
@@ -218,11 +227,11 @@ Proof.
   pose proof (work_root (prog s)) as WR. unfold work in WR. simpl in WR.
   destruct l; simpl in H;
     unfold main_step, user_step, mon_step, stop_step, watch_step, runwatch_step, proc_step in H.
-  - crush_step; pose proof (work_kill_group (tbl s)) as WK; pose proof (work_term_leader (tbl s)) as WT; fin.
-  - crush_step; pose proof (work_kill_group (tbl s)) as WK; pose proof (work_term_leader (tbl s)) as WT; fin.
-  - crush_step; pose proof (work_kill_group (tbl s)) as WK; pose proof (work_term_leader (tbl s)) as WT; fin.
-  - crush_step; pose proof (work_kill_group (tbl s)) as WK; pose proof (work_term_leader (tbl s)) as WT; fin.
-  - crush_step; pose proof (work_kill_group (tbl s)) as WK; pose proof (work_term_leader (tbl s)) as WT; fin.
+  - crush_head; try (destruct (ctx_done s) eqn:?); pose proof (work_kill_group (tbl s)) as WK; pose proof (work_term_leader (tbl s)) as WT; fin.
+  - crush_head; try (destruct (ctx_done s) eqn:?); pose proof (work_kill_group (tbl s)) as WK; pose proof (work_term_leader (tbl s)) as WT; fin.
+  - crush_head; try (destruct (ctx_done s) eqn:?); pose proof (work_kill_group (tbl s)) as WK; pose proof (work_term_leader (tbl s)) as WT; fin.
+  - crush_head; try (destruct (ctx_done s) eqn:?); pose proof (work_kill_group (tbl s)) as WK; pose proof (work_term_leader (tbl s)) as WT; fin.
+  - crush_head; try (destruct (ctx_done s) eqn:?); pose proof (work_kill_group (tbl s)) as WK; pose proof (work_term_leader (tbl s)) as WT; fin.
   - destruct (pstep i (tbl s)) eqn:E; [|discriminate]. inversion H; subst.
     apply work_pstep in E. unfold fuel, main_rem; simpl. lia.
 Qed.
